@@ -12,6 +12,7 @@
 From Coq Require Import List NArith Bool Arith.
 From Wpull Require Import Model.Engine Model.EngineSim Proofs.EngineProofs Proofs.EngineRun Proofs.EngineFinal
   Proofs.EngineOnce Proofs.EngineTerm Proofs.EngineWitness Proofs.EngineResume Proofs.EngineBfs Proofs.EngineBfsWitness.
+From Wpull Require Import Gen.Consts Proofs.ConstsAgree.
 Import ListNotations.
 Open Scope N_scope.
 
@@ -50,11 +51,12 @@ Print Assumptions C03_nothing_lost.
    do nothing more has no item in flight and every row done or skipped. *)
 Theorem C03_resume_terminates_final :
   forall site host in_scope maxredir starts conc, scope_ext_hyp in_scope ->
-  forall U, (forall u, In u starts -> In u U) ->
+  forall U Lmax, (forall u, In u starts -> In u U) ->
     (forall u code links l, site u = Doc code links -> In l links -> In (fst l) U) ->
+    (forall u code links, site u = Doc code links -> (length links <= Lmax)%nat) ->
     (1 <= conc)%nat -> no_fail site maxredir ->
   forall s s1, reach site host in_scope maxredir starts conc s -> fire site host in_scope maxredir starts conc LCrash s = Some s1 ->
-    (forall n s2, nsteps_nc site host in_scope maxredir starts conc n s1 s2 -> (n <= mu maxredir starts U s1)%nat) /\
+    (forall n s2, nsteps_nc site host in_scope maxredir starts conc n s1 s2 -> (n <= mu maxredir starts U Lmax s1)%nat) /\
     (forall s2, steps site host in_scope maxredir starts conc s1 s2 -> quiescent site host in_scope maxredir starts conc s2 ->
        st_items s2 = [] /\ forall r, In r (st_tbl s2) -> is_final (r_status r) = true).
 Proof. exact resume_terminates_final. Qed.
@@ -143,6 +145,12 @@ Example C03_batches_nonvacuous :
   st_mode (get w4_killed) = Down /\ urls (st_tbl (get w4_killed)) = [1; 5] /\
   st_mode (get w4_run) = Running /\ urls (st_tbl (get w4_run)) = [1; 5; 6].
 Proof. exact c03_batches_nonvacuous. Qed.
+
+(* The batch size at which a visit commits its admitted children in the middle of a scrape (Model/Engine.v flush_size) is the one
+   in the source (Gen/Consts.v, regenerated from wpull/pipeline/session.py ItemSession.add_url on every run). *)
+Theorem C03_child_batch_size_is_the_source : N.of_nat flush_size = gen_child_batch_size.
+Proof. exact engine_child_batch_size_agrees. Qed.
+Print Assumptions C03_child_batch_size_is_the_source.
 
 (* Non-vacuity: a two-worker crawl killed with one row in progress and one todo; the restarted
    crawl finishes all five rows with two more requests. *)
